@@ -210,6 +210,21 @@ pub fn string_char_at(
     }
 }
 
+/// Number of characters in `s`: the unit of `length` and of every position a script sees.
+pub(crate) fn char_len(s: &str) -> usize {
+    s.chars().count()
+}
+
+/// Byte offset of the character position `pos` (the end of the string when `pos` is past it).
+pub(crate) fn byte_offset(s: &str, pos: usize) -> usize {
+    s.char_indices().nth(pos).map(|(b, _)| b).unwrap_or(s.len())
+}
+
+/// Character position of the byte offset `byte`.
+pub(crate) fn char_position(s: &str, byte: usize) -> usize {
+    s.get(..byte).map(|head| head.chars().count()).unwrap_or(0)
+}
+
 pub fn string_index_of(
     interp: &mut Interpreter,
     this: JsValue,
@@ -222,18 +237,19 @@ pub fn string_index_of(
     };
     let from_index = args.get(1).map(|v| v.to_number() as usize).unwrap_or(0);
 
-    if from_index >= s.len() {
+    if from_index >= char_len(s.as_str()) {
         return Ok(Guarded::unguarded(JsValue::Number(-1.0)));
     }
 
-    // Use get() for safe slicing - from_index is validated above to be < len
+    // Positions are counted in characters, slices in bytes
+    let start = byte_offset(s.as_str(), from_index);
     match s
         .as_str()
-        .get(from_index..)
+        .get(start..)
         .and_then(|slice| slice.find(search.as_str()))
     {
         Some(pos) => Ok(Guarded::unguarded(JsValue::Number(
-            (from_index + pos) as f64,
+            char_position(s.as_str(), start + pos) as f64,
         ))),
         None => Ok(Guarded::unguarded(JsValue::Number(-1.0))),
     }
@@ -249,7 +265,7 @@ pub fn string_last_index_of(
         Some(v) => interp.to_js_string(v),
         None => interp.intern(""),
     };
-    let len = s.len();
+    let len = char_len(s.as_str());
 
     // Default from_index is length of string
     let from_index = if let Some(arg) = args.get(1) {
@@ -271,13 +287,15 @@ pub fn string_last_index_of(
     }
 
     // Search backwards from from_index
-    let search_end = (from_index + search.len()).min(len);
+    let search_end = (byte_offset(s.as_str(), from_index) + search.as_str().len()).min(s.as_str().len());
     match s
         .as_str()
         .get(..search_end)
         .and_then(|slice| slice.rfind(search.as_str()))
     {
-        Some(pos) => Ok(Guarded::unguarded(JsValue::Number(pos as f64))),
+        Some(pos) => Ok(Guarded::unguarded(JsValue::Number(
+            char_position(s.as_str(), pos) as f64,
+        ))),
         None => Ok(Guarded::unguarded(JsValue::Number(-1.0))),
     }
 }
@@ -288,7 +306,7 @@ pub fn string_at(
     args: &[JsValue],
 ) -> Result<Guarded, JsError> {
     let s = interp.to_js_string(&this);
-    let len = s.len() as isize;
+    let len = char_len(s.as_str()) as isize;
     let index = if let Some(v) = args.first() {
         interp.coerce_to_number(v)? as isize
     } else {
@@ -323,13 +341,13 @@ pub fn string_includes(
     };
     let from_index = args.get(1).map(|v| v.to_number() as usize).unwrap_or(0);
 
-    if from_index >= s.len() {
+    if from_index >= char_len(s.as_str()) {
         return Ok(Guarded::unguarded(JsValue::Boolean(search.is_empty())));
     }
 
     Ok(Guarded::unguarded(JsValue::Boolean(
         s.as_str()
-            .get(from_index..)
+            .get(byte_offset(s.as_str(), from_index)..)
             .map(|slice| slice.contains(search.as_str()))
             .unwrap_or(false),
     )))
@@ -347,13 +365,13 @@ pub fn string_starts_with(
     };
     let position = args.get(1).map(|v| v.to_number() as usize).unwrap_or(0);
 
-    if position >= s.len() {
+    if position >= char_len(s.as_str()) {
         return Ok(Guarded::unguarded(JsValue::Boolean(search.is_empty())));
     }
 
     Ok(Guarded::unguarded(JsValue::Boolean(
         s.as_str()
-            .get(position..)
+            .get(byte_offset(s.as_str(), position)..)
             .map(|slice| slice.starts_with(search.as_str()))
             .unwrap_or(false),
     )))
@@ -372,9 +390,10 @@ pub fn string_ends_with(
     let end_position = args
         .get(1)
         .map(|v| v.to_number() as usize)
-        .unwrap_or(s.len());
+        .unwrap_or(usize::MAX);
 
-    let end = end_position.min(s.len());
+    // byte_offset clamps a position past the end to the end of the string
+    let end = byte_offset(s.as_str(), end_position);
     Ok(Guarded::unguarded(JsValue::Boolean(
         s.as_str()
             .get(..end)
@@ -389,7 +408,7 @@ pub fn string_slice(
     args: &[JsValue],
 ) -> Result<Guarded, JsError> {
     let s = interp.to_js_string(&this);
-    let len = s.len() as i64;
+    let len = char_len(s.as_str()) as i64;
 
     let start_arg = args.first().map(|v| v.to_number() as i64).unwrap_or(0);
     let end_arg = args.get(1).map(|v| v.to_number() as i64).unwrap_or(len);
@@ -426,7 +445,7 @@ pub fn string_substring(
     args: &[JsValue],
 ) -> Result<Guarded, JsError> {
     let s = interp.to_js_string(&this);
-    let len = s.len();
+    let len = char_len(s.as_str());
 
     let start = args
         .first()
@@ -737,7 +756,7 @@ pub fn string_replace(
                                 None => call_args.push(JsValue::Undefined),
                             }
                         }
-                        call_args.push(JsValue::Number(m.start as f64));
+                        call_args.push(JsValue::Number(char_position(&s, m.start) as f64));
                         call_args.push(JsValue::String(JsString::from(s.clone())));
 
                         let replace_result = interp.call_function(
@@ -783,7 +802,7 @@ pub fn string_replace(
         if let Some(start) = s.find(&search) {
             let call_args = vec![
                 JsValue::String(JsString::from(search.clone())),
-                JsValue::Number(start as f64),
+                JsValue::Number(char_position(&s, start) as f64),
                 JsValue::String(JsString::from(s.clone())),
             ];
 
@@ -1115,7 +1134,7 @@ pub fn string_match(
                 // Add index property
                 let index_key = PropertyKey::String(interp.intern("index"));
                 arr.borrow_mut()
-                    .set_property(index_key, JsValue::Number(m.start as f64));
+                    .set_property(index_key, JsValue::Number(char_position(&s, m.start) as f64));
 
                 // Add input property
                 let input_key = PropertyKey::String(interp.intern("input"));
@@ -1203,7 +1222,7 @@ pub fn string_match_all(
         let index_key = PropertyKey::String(interp.intern("index"));
         let match_start = caps.get(0).map(|m| m.start()).unwrap_or(0);
         arr.borrow_mut()
-            .set_property(index_key, JsValue::Number(match_start as f64));
+            .set_property(index_key, JsValue::Number(char_position(&s, match_start) as f64));
 
         // Add input property
         let input_key = PropertyKey::String(interp.intern("input"));
@@ -1264,7 +1283,9 @@ pub fn string_search(
     let re = interp.compile_regexp(&pattern, &flags)?;
 
     match re.find(&s, 0).map_err(JsError::type_error)? {
-        Some(m) => Ok(Guarded::unguarded(JsValue::Number(m.start as f64))),
+        Some(m) => Ok(Guarded::unguarded(JsValue::Number(
+            char_position(&s, m.start) as f64,
+        ))),
         None => Ok(Guarded::unguarded(JsValue::Number(-1.0))),
     }
 }
